@@ -281,7 +281,7 @@ var opts = scen.GenOpts{
 	World: world.Opts{MaxFlows: 3, MaxNodes: 4, Languages: []string{"fra", "spa"}, QueryGroups: true, WebhookRefs: true, NoRandom: true,
 		Templates: []string{"@contact.groups", "@(contact.groups[0].name)", "@(json(contact.groups))", "@(foreach(contact.groups, (g) => g.name))", "@contact.fields", "@(json(globals))", "@globals", "@(json(contact.fields))"}, NoGeneratedIDs: true, LocationHeavy: true,
 		// no rand()/now()-dependent or clock-dependent templates: outputs must be comparable modulo UUIDs and timestamps
-		Actions: []string{"send_msg", "set_run_result", "set_contact_name", "set_contact_field", "set_contact_language", "add_contact_groups", "remove_contact_groups", "enter_flow", "call_webhook", "add_contact_urn", "open_ticket", "set_contact_status"}},
+		Actions: []string{"send_msg", "set_run_result", "set_contact_name", "set_contact_field", "set_contact_language", "add_contact_groups", "remove_contact_groups", "enter_flow", "call_webhook", "add_contact_urn", "set_contact_status"}}, // no open_ticket: it saves the generated ticket UUID as a result value, which later routers read (found by the thorough tier: has_number on that value)
 	StaleGroups: true,
 	Redaction:   true,
 	MaxSteps:    3,
